@@ -32,6 +32,7 @@ THEOREMS = ["table_shape", "table_cells", "board_has_48_chips", "links_documente
             "fpga_table_edges", "fpga_table_numbering", "fpga_link_spec", "fpga_link_iff_leaves_board",
             "fpga_link_on_board", "fpga_link_distinct", "fpga_board_spec",
             "std_dims_spec", "std_dims_squarest", "std_dims_errors"]
+THEOREMS += ['gen_chip_coord', 'gen_local_eth_coord', 'gen_fpga_link']   # translator tie: generated function bodies = model (Props/C19Gen.lean)
 
 RULE = ("(a) every cell of the 12x12 table x 6 links (+ invalid link numbers) for root (0,0) and random roots on 12x12 "
         "and larger machines; (b) random (w, h, root, x, y) with w,h multiples of 12, ragged, 1 and a few 0, x,y inside, "
